@@ -457,8 +457,16 @@ impl<'r> Gen<'r> {
         const ALPHA: &[u8] = b"abcdefghijklmnopqrstuvwxyzABCXYZ0123456789 _-+*/=<>()[]{}:;,.!?#%&|^~@$'";
         let n = self.rng.below(8);
         let mut s = String::new();
+        // one character in eight comes from a pool of characters that need care somewhere between the goml lexer and
+        // the Go printer: escapes, C0 / C1 controls, DEL, non-ASCII, astral (added after a seeded change that printed
+        // C1 controls as one-byte `\x85` escapes)
+        const SPECIAL: &[char] = &['"', '\\', '\t', '\u{1}', '\u{1b}', '\u{7f}', '\u{80}', '\u{85}', '\u{9f}', '\u{a0}', '\u{ad}', '\u{e9}', '\u{4e2d}', '\u{2028}', '\u{feff}', '\u{1F600}'];
         for _ in 0..n {
-            s.push(self.rng.pick(ALPHA) as char);
+            if self.rng.chance(1, 8) {
+                s.push(self.rng.pick(SPECIAL));
+            } else {
+                s.push(self.rng.pick(ALPHA) as char);
+            }
         }
         Expr::Str(s)
     }
